@@ -165,7 +165,20 @@ impl Stitch {
                                 *buffered_entries = hunk.into_iter().peekable();
                                 continue;
                             }
-                            Ok(None) => State::AfterBand(*band_id),
+                            Ok(None) => {
+                                // A complete band says how many hunks it has: if the last
+                                // ones are gone, nothing else would notice.
+                                if let Err(err) = check_hunk_count(
+                                    &self.archive,
+                                    *band_id,
+                                    index_hunks.hunks_passed(),
+                                )
+                                .await
+                                {
+                                    self.monitor.error(err);
+                                }
+                                State::AfterBand(*band_id)
+                            }
                             Err(err) => {
                                 // The entries of this hunk are lost, but say so rather than
                                 // silently presenting a shorter tree; then carry on with
@@ -219,6 +232,28 @@ impl Stitch {
             }
         }
     }
+}
+
+/// Check that as many hunks were found in a band's index as its tail, if it has one, says.
+async fn check_hunk_count(archive: &Archive, band_id: BandId, found: u32) -> Result<()> {
+    // If the head or tail can't be read there is no count to compare with; that is not
+    // this function's problem to report (an interrupted write can leave an empty tail).
+    let Ok(band) = Band::open(archive, band_id).await else {
+        return Ok(());
+    };
+    let Ok(info) = band.get_info().await else {
+        return Ok(());
+    };
+    if let Some(expected) = info.index_hunk_count {
+        if expected != u64::from(found) {
+            return Err(Error::InvalidMetadata {
+                details: format!(
+                    "Band {band_id} should have {expected} index hunks but {found} were found"
+                ),
+            });
+        }
+    }
+    Ok(())
 }
 
 async fn previous_existing_band(archive: &Archive, mut band_id: BandId) -> Option<BandId> {
